@@ -117,12 +117,14 @@ type foundViolation struct {
 	Params map[string]int
 	Path   []int64
 	Detail string
+	Events []string
 }
 type foundKnown struct {
 	ID, Label string
 	Model     map[string]uint64
 	Params    map[string]int
 	Path      []int64
+	Events    []string
 }
 
 var (
@@ -682,7 +684,7 @@ func (r *runner) record(j job, res *sym.PathResult) []sym.WorkItem {
 	}
 	for _, k := range res.Known {
 		if _, dup := h.known[k.ID]; !dup {
-			h.known[k.ID] = &foundKnown{ID: k.ID, Label: k.Label, Model: k.Model, Params: j.inst.params, Path: k.Path}
+			h.known[k.ID] = &foundKnown{ID: k.ID, Label: k.Label, Model: k.Model, Params: j.inst.params, Path: k.Path, Events: res.Events}
 		}
 	}
 	if res.Unknowns > 0 {
@@ -701,7 +703,7 @@ func (r *runner) record(j job, res *sym.PathResult) []sym.WorkItem {
 	case "violation":
 		if h.violation == nil {
 			v := res.Violation
-			h.violation = &foundViolation{Label: v.Label, Model: v.Model, Params: j.inst.params, Path: v.Path}
+			h.violation = &foundViolation{Label: v.Label, Model: v.Model, Params: j.inst.params, Path: v.Path, Events: res.Events}
 			if !h.spec.Twin {
 				h.stopped = true
 			}
@@ -716,7 +718,7 @@ func (r *runner) record(j job, res *sym.PathResult) []sym.WorkItem {
 			for _, kp := range h.spec.KnownPanics {
 				if r.accepted[kp.ID] && strings.Contains(site, kp.Match) {
 					if _, dup := h.known[kp.ID]; !dup {
-						h.known[kp.ID] = &foundKnown{ID: kp.ID, Label: "panic", Model: res.PanicModel, Params: j.inst.params, Path: res.Path}
+						h.known[kp.ID] = &foundKnown{ID: kp.ID, Label: "panic", Model: res.PanicModel, Params: j.inst.params, Path: res.Path, Events: res.Events}
 					}
 					return res.Alts
 				}
@@ -726,7 +728,7 @@ func (r *runner) record(j job, res *sym.PathResult) []sym.WorkItem {
 				if label == "" {
 					label = r.spec.Property + "/no-panic"
 				}
-				h.violation = &foundViolation{Label: label, Model: res.PanicModel, Params: j.inst.params, Path: res.Path, Detail: site}
+				h.violation = &foundViolation{Label: label, Model: res.PanicModel, Params: j.inst.params, Path: res.Path, Detail: site, Events: res.Events}
 				h.stopped = true
 			}
 			return nil
@@ -794,7 +796,7 @@ func (r *runner) collect(hruns []*harnessRun) {
 			k := h.known[id]
 			ok, out := true, ""
 			if !h.spec.NoReplay {
-				ok, out = r.replay(h, k.Model, k.Params, k.Label, id)
+				ok, out = r.replay(h, k.Model, k.Params, k.Events, k.Label, id)
 				replayed++
 			}
 			if !ok {
@@ -814,7 +816,7 @@ func (r *runner) collect(hruns []*harnessRun) {
 			ok, out := true, ""
 			var path string
 			if !h.spec.NoReplay {
-				ok, out = r.replay(h, v.Model, v.Params, v.Label, "")
+				ok, out = r.replay(h, v.Model, v.Params, v.Events, v.Label, "")
 				replayed++
 			}
 			path = r.storeReplay(h, v)
@@ -836,7 +838,7 @@ func (r *runner) storeReplay(h *harnessRun, v *foundViolation) string {
 	name := fmt.Sprintf("%s-%s-%s.json", r.spec.Property, h.spec.Func, sanitize(v.Label))
 	p := filepath.Join(dir, name)
 	b, _ := json.MarshalIndent(map[string]any{"property": r.spec.Property, "harness": h.spec.Func, "label": v.Label, "params": v.Params,
-		"values": v.Model, "sched": v.Path, "detail": v.Detail, "spec": filepath.Join(r.hdir, "spec.json")}, "", " ")
+		"values": v.Model, "sched": v.Path, "events": v.Events, "detail": v.Detail, "spec": filepath.Join(r.hdir, "spec.json")}, "", " ")
 	os.WriteFile(p, b, 0o644)
 	return p
 }
@@ -847,8 +849,17 @@ func sanitize(s string) string {
 
 // replay runs the harness natively with the model's values; it reports whether the same
 // assertion label (or any panic, for panic violations) is observed.
-func (r *runner) replay(h *harnessRun, model map[string]uint64, params map[string]int, label, knownID string) (bool, string) {
-	out, err := r.nativeRun(h.spec.Func, model, params)
+func (r *runner) replay(h *harnessRun, model map[string]uint64, params map[string]int, events []string, label, knownID string) (bool, string) {
+	ok, msg := r.replayOnce(h, model, params, events, label)
+	// a recorded schedule is followed natively by timing-based gating; give it three tries
+	for try := 1; !ok && len(events) > 0 && try < 3; try++ {
+		ok, msg = r.replayOnce(h, model, params, events, label)
+	}
+	return ok, msg
+}
+
+func (r *runner) replayOnce(h *harnessRun, model map[string]uint64, params map[string]int, events []string, label string) (bool, string) {
+	out, err := r.nativeRun(h.spec.Func, model, params, events)
 	if err != nil && out == "" {
 		return false, err.Error()
 	}
@@ -874,13 +885,13 @@ func (r *runner) replay(h *harnessRun, model map[string]uint64, params map[strin
 	return false, oc
 }
 
-func (r *runner) nativeRun(fn string, model map[string]uint64, params map[string]int) (string, error) {
+func (r *runner) nativeRun(fn string, model map[string]uint64, params map[string]int, events []string) (string, error) {
 	dir, err := os.MkdirTemp("", "gosym-replay-")
 	if err != nil {
 		return "", err
 	}
 	defer os.RemoveAll(dir)
-	mb, _ := json.Marshal(map[string]any{"params": params, "values": model})
+	mb, _ := json.Marshal(map[string]any{"params": params, "values": model, "events": events})
 	modelPath := filepath.Join(dir, "model.json")
 	os.WriteFile(modelPath, mb, 0o644)
 	rtPath := filepath.Join(dir, "rt.go")
@@ -898,7 +909,7 @@ func (r *runner) nativeRun(fn string, model map[string]uint64, params map[string
 	ob, _ := json.Marshal(map[string]any{"Replace": repl})
 	ovPath := filepath.Join(dir, "overlay.json")
 	os.WriteFile(ovPath, ob, 0o644)
-	cmd := exec.Command("go", "test", "-vet=off", "-count=1", "-run", "^TestVsymReplay$", "-v", "-overlay", ovPath, spec2pattern(r.spec.Package))
+	cmd := exec.Command("go", "test", "-vet=off", "-count=1", "-timeout", "120s", "-run", "^TestVsymReplay$", "-v", "-overlay", ovPath, spec2pattern(r.spec.Package))
 	cmd.Dir = r.modDir
 	cmd.Env = append(r.toolEnv(), "VSYM_MODEL="+modelPath)
 	out, err := cmd.CombinedOutput()
@@ -915,6 +926,7 @@ func (r *runner) replayFile(path string) int {
 		Label   string            `json:"label"`
 		Params  map[string]int    `json:"params"`
 		Values  map[string]uint64 `json:"values"`
+		Events  []string          `json:"events"`
 	}
 	if err := json.Unmarshal(b, &rec); err != nil {
 		fatal(2, "bad replay file: %v", err)
@@ -926,7 +938,7 @@ func (r *runner) replayFile(path string) int {
 		}
 		break
 	}
-	out, _ := r.nativeRun(rec.Harness, rec.Values, rec.Params)
+	out, _ := r.nativeRun(rec.Harness, rec.Values, rec.Params, rec.Events)
 	fmt.Print(out)
 	if strings.Contains(out, "VSYM-OUTCOME "+rec.Harness+" ok") {
 		return 0
